@@ -89,6 +89,15 @@ func genSchedSpec(p *schedParams, c *Corpus, run int, cold bool) *RunSpec {
 		// level (today the entity table; a change could add more) is first touched here, so
 		// the documents are chosen to reach as many such corners as possible
 		fam := pick(rd, []string{"entity", "unilabel", "any", "mix", "composite", "composite", "composite"})
+		if rh := root.Split("cold-herd"); !c15 && rh.Chance(1, 3) {
+			// cold-start herd: every worker's documents come from ONE construct family, so that
+			// whatever that family's code initialises lazily at package level is first used, in
+			// this process, by several workers at once
+			var hf string
+			docs, hf = genHerd(rh, c, n+rh.Intn(3))
+			spec.Cfg = biasConfig(rh, spec.Cfg, hf)
+			fam = "herd"
+		}
 		if fam == "composite" && !c15 {
 			// everything switched on in two thirds of these runs
 			if rd.Chance(2, 3) {
@@ -97,7 +106,7 @@ func genSchedSpec(p *schedParams, c *Corpus, run int, cold bool) *RunSpec {
 					Unsafe: rd.Chance(1, 3), XHTML: rd.Chance(1, 3), HardWraps: rd.Chance(1, 4)}
 			}
 		}
-		for i := 0; i < n; i++ {
+		for i := 0; i < n && fam != "herd"; i++ {
 			switch {
 			case fam == "composite":
 				docs = append(docs, genComposite(rd, rd.Range(3, 7)))
